@@ -86,7 +86,13 @@ func c15Handler(raw json.RawMessage) (any, error) {
 		return out, nil
 	}
 	if err != nil {
-		if arg.UID != 0 && strings.Contains(err.Error(), "permission denied") {
+		unsearchable := false
+		for _, e := range arg.Entries {
+			if e.Kind == "dir" && e.Mode != 0 && e.Mode&0100 == 0 {
+				unsearchable = true
+			}
+		}
+		if arg.UID != 0 && unsearchable && strings.Contains(err.Error(), "permission denied") {
 			// an unprivileged process cannot finish below a directory it was told to make
 			// unsearchable/unwritable: failing is the honest answer (no verdict)
 			out.Undefined = "environment: permission denied for uid " + fmt.Sprint(arg.UID)
@@ -222,6 +228,8 @@ func c15Alphabet(core bool) []tarx.Entry {
 		tarx.Entry{Name: "l", Kind: "link", Target: "d/x"},
 		tarx.Entry{Name: "d/l", Kind: "link", Target: "../a"},
 		tarx.Entry{Name: "d/l", Kind: "link", Target: "x"},
+		tarx.Entry{Name: "l", Kind: "link", Target: "./a"},
+		tarx.Entry{Name: "d/l", Kind: "link", Target: "e/../x"},
 	)
 	if !core {
 		es = append(es,
